@@ -95,3 +95,26 @@ Definition diff_range_rejected (start_serial end_serial : N) : bool :=
 Definition c17_sigtime (now i e : N) : bool := sig_time_ok now i e.
 Definition c17_uptodate (q z : N) : bool := ixfr_client_up_to_date q z.
 Definition c17_diffrange (s e : N) : bool := diff_range_rejected s e.
+
+(* ---- date notation of signature times (rdata/dnssec.rs Timestamp::scan /
+   FromStr): YYYYMMDDHHmmSS -> seconds since the epoch, then `as u32`.
+   days_from_civil is the proleptic Gregorian day count (Hinnant's algorithm),
+   valid for years >= 1 (the harness uses 1970..9999). *)
+From Coq Require Import ZArith.
+Definition days_from_civil (y m d : Z) : Z :=
+  let y' := (if (m <=? 2)%Z then y - 1 else y)%Z in
+  let era := (y' / 400)%Z in
+  let yoe := (y' - era * 400)%Z in
+  let mp := ((m + 9) mod 12)%Z in
+  let doy := ((153 * mp + 2) / 5 + d - 1)%Z in
+  let doe := (yoe * 365 + yoe / 4 - yoe / 100 + doy)%Z in
+  (era * 146097 + doe - 719468)%Z.
+Definition epoch_secs (y mo d h mi s : Z) : Z :=
+  (days_from_civil y mo d * 86400 + h * 3600 + mi * 60 + s)%Z.
+Definition timestamp_of_secs (secs : Z) : N :=
+  if date_cast_wraps then Z.to_N (secs mod 4294967296)%Z
+  else Z.to_N (Z.max 0 (Z.min secs 4294967295)).
+Definition timestamp_of_date (y mo d h mi s : Z) : N :=
+  timestamp_of_secs (epoch_secs y mo d h mi s).
+Definition c17_date (y mo d h mi s : N) : N :=
+  timestamp_of_date (Z.of_N y) (Z.of_N mo) (Z.of_N d) (Z.of_N h) (Z.of_N mi) (Z.of_N s).
